@@ -114,6 +114,13 @@ check("C14", "exploration",
       "Trusted: raw NumPy for reference values and local constancy.",
       "property-based testing (Hypothesis) with exact-zero / differential oracles and a metamorphic composition law", "DESIGN.md C14")
 
+check("C16", "exploration",
+      "Closed-form tensor functions (input and output ranks 0-3) and a two-argument scalar function under drawn signatures (extra positional "
+      "and keyword parameters, argnum as int / tuple / list / name): every public differential operator is compared with the closed-form "
+      "Jacobian / Hessian and their contractions at 1e-10.",
+      "Trusted: the closed-form derivatives of the generated function family, evaluated with raw NumPy.",
+      "property-based testing (Hypothesis) with closed-form oracles", "DESIGN.md C16")
+
 NOT_YET = {}
 
 
